@@ -1,6 +1,6 @@
 """C08 configuration for ./check (see checks/propcfg.py for the keys)."""
 CFG = {
-    "modules": ["VaxisModel.Props.C08", "VaxisModel.Props.C08Fine", "VaxisModel.Props.C08Pools", "VaxisModel.Props.C08Live", "VaxisModel.Props.C08Spec", "VaxisModel.Props.C08FineChan", "VaxisModel.Props.C08Order", "VaxisModel.Props.C08Drive", "VaxisModel.Props.C08Payload", "VaxisModel.Props.C08Sched", "VaxisModel.Props.C08DriveParams", "VaxisModel.Props.C08FineFair", "VaxisModel.Props.C08SchedNormal", "VaxisModel.Witness.F29"],
+    "modules": ["VaxisModel.Props.C08", "VaxisModel.Props.C08Fine", "VaxisModel.Props.C08Pools", "VaxisModel.Props.C08Live", "VaxisModel.Props.C08Spec", "VaxisModel.Props.C08FineChan", "VaxisModel.Props.C08Order", "VaxisModel.Props.C08Drive", "VaxisModel.Props.C08Payload", "VaxisModel.Props.C08Sched", "VaxisModel.Props.C08DriveParams", "VaxisModel.Props.C08FineFair", "VaxisModel.Props.C08SchedNormal", "VaxisModel.Props.C08SchedGroup", "VaxisModel.Witness.F29"],
     "extractors": ["C02"],
     "drivers": ["C08", "C08Sched"],
     "trivial_prefix": ("Z |",),
@@ -24,7 +24,8 @@ CFG = {
                      "that every hand-over is followed by a pool Get and parameter slices are taken with Get()[:0] is re-decided against the regenerated bodies (handover_takes_fresh_storage)",
                      "forced schedules: the reductions of the enumeration (Close() issued in front of a select; a timer expires right after arming or never) are theorems: closeSig_commutes / expire_commutes, closeSig_moves_later / expire_moves_earlier and their iteration closeSig_normal_form / expire_normal_form / joint_normal_form "
                      "(Props/C08SchedNormal: every schedule of single statements has a permutation with the same final state and items in which every Close() stands in front of a select or at the end and every expiry right behind the arming statement); "
-                     "not a theorem: that such a normal schedule, grouped into harness labels, is one of the enumerated ones; "
+                     "the grouping of statements into harness labels loses nothing either (Props/C08SchedGroup: complete_schedule_is_harness_schedule - every complete schedule of single statements from the initial state has a harness-label schedule with the same final state and items); "
+                     "not yet one theorem: the composition of the normal forms with the grouping into a member of the enumerated list; "
                      "the scheduler cannot park between ReadRune's return and the Stop() in readRune nor between a failed check and the deferred Unlock (no yield point)"],
     "assumptions": ["the consumer keeps receiving (emit blocks otherwise, by design: consumer_stops_blocks; with a receiving consumer every finite input terminates: finite_input_terminates on the atomic layer, fchan_fair_run_terminates at statement grain)", "each delivered sequence is passed to Finish at most once",
                     "back-to-back reads of the scripted reader are less than 10 ms apart on the test machine (prompt cases with surplus Escape reports are re-run); no other elapsed time enters a verdict"],
